@@ -335,7 +335,7 @@ ClearModelClears ==
 (* restriction of the exploration to histories about the YAML-loaded circuit (deeper bound) *)
 (* a history-sensitive view: states reached by different sequences of call kinds are kept apart, so that the export
    covers every sequence of kinds (path coverage of the implementation) and not only every abstract state *)
-Sig == [i \in 1..Len(tr) |-> <<tr[i].a, tr[i].c>>]
+Sig == [i \in 1..Len(tr) |-> <<tr[i].a, tr[i].c, tr[i].clr>>]
 ViewSig == <<View, Sig>>
 PlainCalls == \A i \in 1..Len(tr) : /\ (tr[i].a \in {"compile", "compile_nv"} => ~tr[i].vec /\ ~tr[i].dec)
                                      /\ (tr[i].a = "update_var" => tr[i].node # 0)
